@@ -87,6 +87,22 @@ theorem c04_timeout_resends_window (c : SCfg) (s : SState) (hrun : s.status = .r
   unfold sHead
   simp [ht, hrun]
 
+/-- **sender: a stale acknowledgement neither spends the retry budget nor cancels the retransmission that is due**: a stale or
+duplicate ACK arriving before the interval has elapsed leaves the retry counter alone, and the next failed receive attempt once the
+interval (counted from the last transmission, not from the stale ACK) has elapsed re-emits the whole outstanding window. (In real time the
+socket wait restarts at the stale ACK, so the attempt fails later; that it is then answered by the window is this statement, and the
+`staleretx` scenario observes it on the real server.) -/
+theorem c04_stale_ack_keeps_retransmission_due (c : SCfg) (hw : c.w < 65536) (f : Bytes) (s : SState) (h : SInv c f s)
+    (hrun : s.status = .running) (n dt1 dt2 : Nat)
+    (hstale : ¬ (n + 65536 - s.bn) % 65536 < s.win.elems.length) (ht1 : s.since + dt1 < c.timeout)
+    (hbudget : s.retry + 1 ≠ Gen.maxRetries) (ht2 : s.since + dt1 + dt2 ≥ c.timeout) :
+    (sStep c s (.ack n) dt1).1.retry = s.retry ∧ (sStep c s (.ack n) dt1).2 = [] ∧
+    (sStep c (sStep c s (.ack n) dt1).1 .fail dt2).2 = sendWindow c.rep s.bn s.win.elems ∧
+    (sStep c (sStep c s (.ack n) dt1).1 .fail dt2).1.status = .running := by
+  rw [c08_stale_ack_is_noop c hw f s h hrun n dt1 hstale ht1]
+  have := c04_timeout_resends_window c { s with since := s.since + dt1 } hrun dt2 hbudget ht2
+  exact ⟨rfl, rfl, this.1, this.2.2.2⟩
+
 /-- **sender: an ACK inside the window renews the retry budget** -/
 theorem c04_progress_renews_budget (c : SCfg) (hb : 0 < c.b) (hw : c.w < 65536) (f : Bytes) (s : SState)
     (h : SInv c f s) (hrun : s.status = .running) (n dt : Nat)
